@@ -198,6 +198,10 @@ def model_compare(model, c, gradp, reactions, floor, iimg):
 MODEL = True
 
 
+def two_dirs_chk2plt(seed):
+    return core.two_dirs_case(PID, 'chk2plt', seed)
+
+
 def run(tier, seed):
     rep = core.Report(PID, tier, seed)
     pg = core.proof_gate(PID, thorough=(tier == 'thorough'))
@@ -211,6 +215,8 @@ def run(tier, seed):
     for r in core.run_cases(run_case, core.with_corpus(PID, cases)):
         rep.merge(r)
     for r in core.run_cases(run_big, [seed * 100000 + 17900 + i for i in range(1 if tier == 'quick' else 4)]):
+        rep.merge(r)
+    for r in core.run_cases(two_dirs_chk2plt, [seed * 100000 + 99000 + i for i in range(1 if tier == 'quick' else 5)]):
         rep.merge(r)
     rep.obligation('correspondence: Writers.Chk2plt.convert_level (binary files byte for byte, (file, offset) table) = output of chk2plt',
                    not any(v[0].get('kind') == 'model-vs-impl' for v in rep.violations))
